@@ -341,8 +341,9 @@ def check(prop, tier, seed):
                         'multiprocess semaphore scope is outside the statement and not modelled'],
         'wall_s': round(time.time() - t0, 2), 'violations': len(viol),
     }
-    os.makedirs(os.path.join(VERIF, 'evidence'), exist_ok=True)
-    json.dump(ev, open(os.path.join(VERIF, 'evidence', prop + '.json'), 'w'), indent=1, default=str)
+    if not os.environ.get('VERIF_NO_EVIDENCE'):
+        os.makedirs(os.path.join(VERIF, 'evidence'), exist_ok=True)
+        json.dump(ev, open(os.path.join(VERIF, 'evidence', prop + '.json'), 'w'), indent=1, default=str)
     print('%s %s: %d scenarios, %d spec states, %d behaviours, %d executions on the real decorator, %d mismatches, wall %.1fs' % (
         prop, tier, len(scns), states, sum(len(v) for v in expected.values()), evals, len(viol), time.time() - t0))
     return rc
